@@ -9,13 +9,18 @@ int main(void)
 {
     int dummy = IN_RANGE(0, 0);
 #if defined(KF_EXCLUDE_C24_TOTAL_FLOWS)
-    VASSUME(!(NFLOWS_TOTAL > 20 && NFLOWS_READ <= 20 && NFLOWS_WRITE <= 20));
+    if (NFLOWS_TOTAL > 20 && NFLOWS_READ <= 20 && NFLOWS_WRITE <= 20) {
+#ifdef WITNESS
+        VWITNESS("query excluded: this concrete program is in the recorded failing class (known finding)");
+#endif
+        return 0;
+    }
 #elif defined(KF_ONLY_C24_TOTAL_FLOWS)
     VASSUME(NFLOWS_TOTAL > 20 && NFLOWS_READ <= 20 && NFLOWS_WRITE <= 20);
 #endif
     VASSERTM(!(PTGPP_RC == 0 && CC_RC != 0), "a program accepted by parsec-ptgpp (exit 0) compiles without errors");
     VASSERTM((PTGPP_RC != 0) == (NFLOWS_TOTAL > 20 || NFLOWS_READ > 20 || NFLOWS_WRITE > 20), "programs exceeding the flow limits are rejected, the others accepted");
-#ifdef WITNESS
+#if defined(WITNESS) && !(defined(KF_EXCLUDE_C24_TOTAL_FLOWS) && NFLOWS_TOTAL > 20 && NFLOWS_READ <= 20 && NFLOWS_WRITE <= 20)
     if (dummy == 0) VWITNESS("real parsec-ptgpp and cc were run");
 #endif
     return 0;
